@@ -316,6 +316,13 @@ def check_matching(case):
             ('same', [('string', 'v', None)], 'full'),
             ('opt', [('int', 'a', None), ('int', 'b', '2'), ('int', 'c', '3')], 'full'),   # optional parameters
             ('optreq', [('int', 'a', None), ('double', 'tol', '1e-9'), ('string', 'name', '"x"')], 'full-required-only'),
+            ('lambda', [('int', 'a', None)], 'full'),                  # Python name differs from the C++ name (lambda_)
+            ('html', [('int', 'a', None)], 'full'),
+            ('swap', [('int', 'key', None), ('int', 'value', None)], 'full'),      # same names, other positions
+            ('swap', [('int', 'value', None), ('int', 'key', None)], 'full'),
+            ('addw', [('double', 'weight', None), ('string', 'label', '""')], 'full'),
+            ('addw', [('string', 'label', None)], 'full'),
+            ('solve', [('double', 'x', None), ('int', 'max_iterations', '10'), ('double', 'relax', '0.5')], 'full-required-only'),
             ('briefonly', [('int', 'a', None)], 'brief'),
             ('nodoc', [('int', 'a', None)], 'none'),
             ('notinxml', [('int', 'a', None)], 'absent'),
@@ -342,7 +349,8 @@ def check_matching(case):
                 elif kind == 'brief':
                     m.update({'brief': 'BRIEF-%s' % mark})
                 xmlm.append(m)
-            expect.append((name, [n for _, n, _ in params], mark if kind in ('full', 'brief') else None))
+            pyname = {'lambda': 'lambda_', 'html': '_repr_html_'}.get(name, name)    # Python-side names of the bindings
+            expect.append((pyname, [n for _, n, _ in params], mark if kind in ('full', 'brief') else None))
         # an overload set in which one C++ member has optional parameters and another has exactly the arity in between
         members += [D.method(single(I), 'rng', [arg(I, 'rows'), arg(I, 'cols')]), D.method(single(I), 'rng', [arg(I, 'rows')]),
                     D.method(single(I), 'rng', [arg(I, 'rows'), arg(I, 'cols'), arg(I, 'depth')])]
@@ -398,6 +406,12 @@ def check_matching(case):
                     if set(allmarks) != {want}:
                         viol.append({'sig': 'C17|matching|wrong-member-doc|%s' % py,
                                      'msg': '%s(%s) should carry the documentation %s, literal is "%s"' % (py, names, want, lit)})
+                    elif 'PD-' in lit or True:
+                        pd = re.findall(r'PD-K\d+K-(\w+)', lit)
+                        full_doc = ('DETAIL-' + want) in lit
+                        if full_doc and sorted(pd) != sorted(names):
+                            viol.append({'sig': 'C17|matching|parameter-docs|%s' % py,
+                                         'msg': '%s(%s): the docstring describes the parameters %s, the binding has %s; literal "%s"' % (py, names, pd, names, lit)})
             sfoo = [(py, names, lit) for cpp, py, names, lit in lits if cpp == 'gt::Sfoo']
             if vname == 'full':
                 if [(p, n) for p, n, _ in sfoo] != [(p, n) for p, n, _ in sexpect]:
